@@ -593,9 +593,46 @@ def _replay_porcelain(v, native):
         subprocess.call(['rm', '-rf', tmp])
 
 
+def _replay_json(v, native):
+    import json
+    import os
+    import subprocess
+    import tempfile
+    inp = v['inputs']
+    tmp = tempfile.mkdtemp(prefix='vc09j')
+    try:
+        env = dict(os.environ, HOME=tmp)
+        subprocess.run(['git', 'init', '-q', tmp], env=env, check=True, stdout=subprocess.PIPE, stderr=subprocess.PIPE)
+        exe = native.__globals__['replay_binary']()
+        p = subprocess.run([exe, 'c09_json_lines'], input=json.dumps({'repo': tmp, 'lines': inp['lines'], 'authors': inp['authors']}).encode(),
+                           stdout=subprocess.PIPE, stderr=subprocess.PIPE, env=env, timeout=60)
+        if p.returncode == 101:
+            return {'reproduced': v['kind'] == 'panic', 'stderr': p.stderr.decode('utf-8', 'replace')[-300:]}
+        out = p.stdout.decode('utf-8', 'replace').rstrip('\n').split('\n')
+        doc = json.loads('\n'.join(out[:-1]))
+        got = {}
+        for k, sess in doc.get('lines', {}).items():
+            if '-' in k:
+                a, b = k.split('-')
+                rng = range(int(a), int(b) + 1)
+            else:
+                rng = [int(k)]
+            got.setdefault(sess, set()).update(rng)
+        want = {}
+        for l, a in zip(inp['lines'], inp['authors']):
+            if a in ('s1', 's2'):
+                want.setdefault(a, set()).add(l)
+        bad = {'K5-json-lists-exactly-the-sessions-lines': got != want, 'K5-json-names-only-sessions': not set(got) <= {'s1', 's2'}}
+        return {'reproduced': bool(bad.get(v['obligation'])), 'native': {k: sorted(x) for k, x in got.items()}, 'want': {k: sorted(x) for k, x in want.items()}}
+    finally:
+        subprocess.call(['rm', '-rf', tmp])
+
+
 def replay(v, native):
     if v['obligation'].startswith('K4-'):
         return _replay_porcelain(v, native)
+    if v['obligation'].startswith('K5-'):
+        return _replay_json(v, native)
     import os
     import subprocess
     import tempfile
